@@ -59,6 +59,9 @@ type BlockResult struct {
 	Err     error       // non-nil if FinalizeBlock returned an error
 	Panic   interface{} // non-nil if FinalizeBlock panicked
 	TxNames []string
+	// EngineHalt is set when the block was executed and committed but the consensus engine cannot continue
+	// (the resulting validator set is empty)
+	EngineHalt string
 }
 
 func (b *BlockResult) Failed() bool { return b.Err != nil || b.Panic != nil }
@@ -244,9 +247,15 @@ func (c *Chain) ProduceBlock(dt time.Duration, votes Votes, misbehavior []abci.M
 
 	newNext, err := ApplyUpdates(c.NextVals, br.Resp.ValidatorUpdates)
 	if err != nil {
+		c.Halted = true
+		if isEmptySetUpdate(c.NextVals, br.Resp.ValidatorUpdates) {
+			// every validator was removed (e.g. all validators of an opt-in consumer opted out): the consensus
+			// engine stops the chain; that is inherent to the protocol, not an application failure
+			br.EngineHalt = "the validator updates remove every validator"
+			return br
+		}
 		// CometBFT would reject these updates and halt: report as a block failure
 		br.Err = fmt.Errorf("consensus engine rejects validator updates: %w", err)
-		c.Halted = true
 		return br
 	}
 	c.PrevVals = c.Vals
@@ -257,6 +266,19 @@ func (c *Chain) ProduceBlock(dt time.Duration, votes Votes, misbehavior []abci.M
 	c.Time = blockTime
 	c.LastHash = c.App.LastCommitID().Hash
 	return br
+}
+
+func isEmptySetUpdate(vs *cmttypes.ValidatorSet, updates []abci.ValidatorUpdate) bool {
+	left := SetAsMap(vs)
+	for _, u := range updates {
+		k := fmt.Sprintf("%X", u.PubKey.GetEd25519())
+		if u.Power == 0 {
+			delete(left, k)
+		} else {
+			left[k] = u.Power
+		}
+	}
+	return len(left) == 0
 }
 
 // SignTx signs msgs with the account; the sequence is read from committed state plus the number of
